@@ -159,9 +159,8 @@ def standard_run(run, which):
 
     run_cases(run, "vf.props._nodewise_driver", "check_case", cases, {"which": which})
     if which in ("C06", "C09"):
-        from vf.contracts import partitions, repartition
-        from vf.props._p import run_specs
+        from vf.contracts.registry import run_property_specs
 
-        run_specs(run, partitions.SPECS + repartition.SPECS, which)
+        run_property_specs(run, which)
         run.assume("tier-P obligations: subset semantics A1, floats as reals A2, expression names end in a unique token (A-names); see DESIGN.md 3.4")
     run.trust("vf/rt/corpus.py program catalogue; node values obtained by executing node.lower_completely() with dask.get")
